@@ -3394,7 +3394,7 @@ class StateEngine(object):
         state, current_state_machine, state_path = find_state(
             ASL["States"], current_state, force_full_lookup
         )
-        if state == None:  # state should be valid by this point
+        if not isinstance(state, dict):  # state should be valid by this point
             message = ("{} attempted a transition to a non-existent "
                        "state \"{}\": Illegal State Machine.").format(
                         execution_arn, current_state
@@ -3405,7 +3405,7 @@ class StateEngine(object):
             return
 
         # Determine the ASL state type of the current state.
-        state_type = state["Type"]
+        state_type = str(state.get("Type"))
 
         """
         Check if the current execution or branch has been terminated due to a
